@@ -842,6 +842,8 @@ package builder
 //@ #endif
 // (the Statistics option may install a caller-provided Stats object: sharing one between concurrent parses is the caller's doing)
 //@   ensures [fresh C18] fresh(p) && fresh(p.errs) && fresh(p.cur.globalStore)
+// code blocks may write the global store in every parser, optimized or not, with or without state blocks (C05, C10)
+//@   ensures [global-store C05 C10] p.cur.globalStore != nil
 //@   ensures [init C01 C18] FreshP(p) && p.data == b && p.filename == filename
 //@   ensures [budget C16] p.maxExprCnt > 0
 // the count starts at zero, so that "at most n expressions" is about THIS parse (C16; not when the Statistics
